@@ -33,9 +33,12 @@ pub enum Workload {
     TaskSwap,
     /// the README pattern: a resident population, then one in / one out for many cycles
     Conveyor,
+    /// very many children that are ready (or have ended) at once: hundreds to thousands of
+    /// completions inside single polls, limits up to 600
+    Flood,
 }
 
-pub const ALL_WORKLOADS: [Workload; 13] = [
+pub const ALL_WORKLOADS: [Workload; 14] = [
     Workload::Generic,
     Workload::Budget,
     Workload::Groups,
@@ -49,6 +52,7 @@ pub const ALL_WORKLOADS: [Workload; 13] = [
     Workload::WakerLife,
     Workload::TaskSwap,
     Workload::Conveyor,
+    Workload::Flood,
 ];
 
 const MSB: usize = !(usize::MAX >> 1);
@@ -273,7 +277,7 @@ fn pick_op(r: &mut Rng, w: &Weights, m: &BehMix, src: bool) -> Op {
             how: PushHow::TryBack,
         },
         3 => {
-            let n = r.range(1, 4);
+            let n = if r.chance(1, 4) { r.range(30, 75) } else { r.range(1, 4) };
             Op::Extend {
                 behs: (0..n).map(|_| gen_beh(r, m, src)).collect(),
             }
@@ -342,6 +346,7 @@ fn base_config(subject: SubjectKind, workload: Workload) -> Config {
         up_hi_slack: Some(0),
         wakers_first: false,
         shape: 0,
+        inexact_iter: false,
         workload: format!("{:?}", workload),
     }
 }
@@ -359,6 +364,7 @@ pub fn applies(workload: Workload, s: SubjectKind) -> bool {
         Workload::Stall => matches!(s, BO | TBO | FOB | FO),
         Workload::AfterReady => matches!(s, JA | TJA),
         Workload::Conveyor => matches!(s, FUB | FU | FOB | FO),
+        Workload::Flood => true,
     }
 }
 
@@ -403,6 +409,7 @@ pub fn generate(workload: Workload, subject: SubjectKind, seed: u64) -> (Config,
         m.p_cross = 0;
     }
     cfg.wakers_first = r.chance(1, 2);
+    cfg.inexact_iter = r.chance(1, 3);
     cfg.cap = small_cap(r);
     if cfg.cap == 0 && !matches!(workload, Workload::Cap) {
         cfg.cap = 1 + r.below(4) as usize;
@@ -805,6 +812,74 @@ pub fn generate(workload: Workload, subject: SubjectKind, seed: u64) -> (Config,
             w.after_ready *= 8;
             w.ready *= 2;
             w.drive *= 2;
+        }
+        Workload::Flood => {
+            let n = match r.below(100) {
+                0..=69 => r.pick(&[61usize, 62, 64, 122, 128, 200, 256, 257, 300]),
+                70..=93 => r.pick(&[512usize, 600, 1000, 1023, 1024, 1025]),
+                _ => r.pick(&[2048usize, 3000]),
+            };
+            let n = if r.chance(1, 4) { n + r.below(40) as usize } else { n };
+            let all = Beh { ready: true, closed: true, items: if r.chance(1, 2) { 0 } else { 1 }, wake_on_complete: r.chance(1, 8), ..Beh::default() };
+            // a few stragglers that finish later
+            let stragglers = if r.chance(1, 2) { 0 } else { r.range(1, 3) as usize };
+            trace.clear();
+            cfg.start_pos = None;
+            match class {
+                Class::Collection | Class::Merge => {
+                    cfg.initial.clear();
+                    let mut behs: Vec<Beh> = vec![all; n];
+                    for _ in 0..stragglers {
+                        let at = r.below(behs.len() as u64 + 1) as usize;
+                        behs.insert(at, Beh { ready: false, closed: false, items: 0, ..Beh::default() });
+                    }
+                    if subject == SubjectKind::MB || r.chance(1, 2) {
+                        cfg.ctor = Ctor::Collect;
+                        cfg.initial = behs;
+                        cfg.cap = cfg.initial.len();
+                    } else {
+                        cfg.ctor = if subject.bounded() || r.chance(1, 2) { Ctor::New } else { Ctor::WithCapacity };
+                        cfg.cap = if subject.bounded() { behs.len() + r.below(3) as usize } else { r.pick(&[1usize, 2, 32, 64]) };
+                        for b in behs {
+                            trace.push(Op::Push { beh: b, how: PushHow::Back });
+                        }
+                    }
+                }
+                Class::Adapter => {
+                    cfg.cap = r.pick(&[1usize, 2, 4, 61, 62, 128, 256, 257, 300, 600]);
+                    // mostly ready futures, or (a third of the time) futures that stay pending so
+                    // that a wide buffer has to be filled in one go
+                    let ready = !r.chance(1, 3);
+                    let mut up: Vec<UpEntry> = (0..n).map(|_| UpEntry::Fut(Beh { ready, ..Beh::default() })).collect();
+                    for _ in 0..stragglers {
+                        let at = r.below(up.len() as u64 + 1) as usize;
+                        up.insert(at, UpEntry::Fut(Beh::default()));
+                    }
+                    cfg.upstream = up;
+                    cfg.up_released = cfg.upstream.len();
+                }
+                Class::Join => {
+                    let mut behs: Vec<Beh> = vec![all; n.min(1100)];
+                    for _ in 0..stragglers {
+                        let at = r.below(behs.len() as u64 + 1) as usize;
+                        behs.insert(at, Beh::default());
+                    }
+                    cfg.initial = behs;
+                    cfg.cap = cfg.initial.len();
+                }
+            }
+            trace.push(Op::Poll { fresh: false });
+            trace.push(Op::Drive { max: (n as u16).saturating_add(40) });
+            for _ in 0..stragglers {
+                if class == Class::Merge {
+                    trace.push(Op::Close { sel: 0, delay: false });
+                } else {
+                    trace.push(Op::Ready { sel: 0, delay: false });
+                }
+                trace.push(Op::Drive { max: 8 });
+            }
+            trace.push(Op::Quiesce);
+            return (cfg, trace);
         }
         Workload::Conveyor => {
             // resident population of pending futures, part of it drained, then one-in/one-out
